@@ -145,6 +145,23 @@ func (ds *dataStore) flush(chunk int, force bool) error {
 	return nil
 }
 
+// flushOldChunks flushes the chunks below the head that still have buffered records.
+func (ds *dataStore) flushOldChunks() {
+	ds.Lock()
+	head := ds.newHead
+	ds.Unlock()
+	for i := 0; i < head; i++ {
+		dc := &ds.chunks[i]
+		dc.Lock()
+		n := len(dc.wbuf)
+		dc.Unlock()
+		if n > 0 {
+			vhook.PointI("data.flushold", int64(ds.bucketID), int64(i))
+			ds.flush(i, true)
+		}
+	}
+}
+
 func (ds *dataStore) GetRecordByPos(pos Position) (res *Record, inbuffer bool, err error) {
 	return ds.chunks[pos.ChunkID].GetRecordByOffset(pos.Offset)
 }
